@@ -812,6 +812,10 @@ func findSinkType(params *filterParams, parent ast.Node, kv *ast.KeyValueExpr, e
 		case *types.Array:
 			return typ.Elem()
 		case *types.Map:
+			if kv == nil {
+				// Not an element: the literal's type expression or a whole key: value pair.
+				break
+			}
 			if astutil.Unparen(kv.Key) == e {
 				return typ.Key()
 			}
